@@ -64,6 +64,9 @@ structure St where
   now : Int
   /-- AFTER ROW triggers queued by the running statement -/
   afterQ : List PendingTrig := []
+  /-- EvalPlanQual re-check: scans of this table see only this row version
+      (table, rid, values of the latest committed version) -/
+  epq : Option (String × Nat × List Value) := none
   deriving Inhabited
 
 abbrev M := ExceptT Err (StateM St)
